@@ -1,6 +1,7 @@
 package main
 
 import (
+	"os"
 	"fmt"
 	"go/constant"
 	"go/token"
@@ -85,6 +86,8 @@ type Engine struct {
 	eager      map[string]bool // callees inside which branch feasibility is decided eagerly
 	eagerDepth int
 	MapOrderND bool
+	liveCache  map[*Obj][]*Term
+	stepsBy    map[*ssa.Function]int
 	frozen     int // objects with Epoch < frozen are write-monitored (0 = off)
 }
 
@@ -479,6 +482,9 @@ func (e *Engine) raise(c *Ctx, guard *Term, what string) {
 	if pc.IsFalse() || (!e.Lazy && !e.feasible(pc)) {
 		return
 	}
+	if os.Getenv("SYMGO_TRACE_PANICS") != "" {
+		fmt.Printf("    [raise] %s (caught=%v)\n", what, len(e.catchers) > 0)
+	}
 	if n := len(e.catchers); n > 0 {
 		cc := c.fork(guard)
 		e.catchers[n-1] = append(e.catchers[n-1], cc)
@@ -639,25 +645,25 @@ func (e *Engine) mapUpdate(c *Ctx, m MapV, k, v Value, tomb bool) {
 }
 
 func (e *Engine) mapLen(c *Ctx, m MapV) *Term {
-	// number of live distinct keys: sum over entries that are the last write for their key and not tomb
+	// number of live distinct keys
 	total := BV(64, 0)
+	n := 0
 	for _, a := range m.Alts {
 		if a.Obj == -1 {
 			continue
 		}
-		log := c.S.Heap[a.Obj].Log
-		for i, en := range log {
-			if en.Tomb {
+		o := c.S.Heap[a.Obj]
+		live := e.mapLive(o)
+		for i := range o.Log {
+			l := And(a.G, live[i])
+			if l.IsFalse() {
 				continue
 			}
-			live := And(a.G, en.G)
-			for j := i + 1; j < len(log); j++ {
-				live = And(live, Not(And(log[j].G, eqV(en.K, log[j].K))))
-			}
-			total = Add(total, Ite(live, BV(64, 1), BV(64, 0)))
+			n++
+			total = Add(total, Ite(l, BV(64, 1), BV(64, 0)))
 		}
 	}
-	return total
+	return withIv(total, 0, uint64(n))
 }
 
 func (e *Engine) rangeMap(c *Ctx, m MapV) IterV {
@@ -866,16 +872,47 @@ func (e *Engine) call(caller *Frame, c *Ctx, fn *ssa.Function, args []Value, bin
 	return mv, out
 }
 
-// exec runs from block b until control reaches stop (returned ctx is positioned at the entry of stop;
-// if its Prev is nil the phis of stop were already evaluated), or until return/panic (nil).
-func (e *Engine) exec(fr *Frame, c *Ctx, b *ssa.BasicBlock, stop *ssa.BasicBlock) *Ctx {
-	return e.execFrom(fr, c, b, stop, -1)
+// arrivals: contexts that reached one of the stop blocks (phis of that block already evaluated, Prev == nil).
+type arrivals map[*ssa.BasicBlock]*Ctx
+
+func inStops(stops []*ssa.BasicBlock, b *ssa.BasicBlock) bool {
+	for _, s := range stops {
+		if s == b {
+			return true
+		}
+	}
+	return false
 }
 
-func (e *Engine) execFrom(fr *Frame, c *Ctx, b *ssa.BasicBlock, stop *ssa.BasicBlock, start int) *Ctx {
+// addArrival merges ctx x (arriving at block blk) into acc; contexts have disjoint path conditions.
+func (e *Engine) addArrival(acc arrivals, blk *ssa.BasicBlock, x *Ctx) arrivals {
+	if x == nil {
+		return acc
+	}
+	if acc == nil {
+		acc = arrivals{}
+	}
+	if old, ok := acc[blk]; ok {
+		acc[blk] = e.mergeCtx(x.S.PC, x, old, nil)
+		acc[blk].Prev = nil
+	} else {
+		acc[blk] = x
+	}
+	return acc
+}
+
+// exec runs from block b until control reaches one of the stop blocks, a return, or a panic.
+func (e *Engine) exec(fr *Frame, c *Ctx, b *ssa.BasicBlock, stops []*ssa.BasicBlock) arrivals {
+	return e.execFrom(fr, c, b, stops, -1)
+}
+
+func (e *Engine) execFrom(fr *Frame, c *Ctx, b *ssa.BasicBlock, stops []*ssa.BasicBlock, start int) arrivals {
+	var out arrivals
 	for {
-		if b == stop && start < 0 {
-			return c
+		if start < 0 && inStops(stops, b) {
+			e.evalPhis(c, b)
+			c.Prev = nil
+			return e.addArrival(out, b, c)
 		}
 		e.evalPhis(c, b)
 		nphi := 0
@@ -887,19 +924,57 @@ func (e *Engine) execFrom(fr *Frame, c *Ctx, b *ssa.BasicBlock, stop *ssa.BasicB
 			}
 		}
 		var nextB *ssa.BasicBlock
-		if start >= 0 {
+		fromStart := start >= 0
+		if fromStart {
 			nphi = start
 			start = -1
-		} else if nx, ok := b.Instrs[nphi].(*ssa.Next); ok && !nx.IsString {
+		}
+		if nx, ok := b.Instrs[nphi].(*ssa.Next); ok && !nx.IsString {
 			// guarded iteration over a map: visit candidates in log order, each under its effectiveness guard
-			c = e.guardedRange(fr, c, b, nphi, nx)
+			var esc arrivals
+			c, esc = e.guardedRange(fr, c, b, nphi, nx, stops)
+			for blk, x := range esc {
+				if inStops(stops, blk) {
+					out = e.addArrival(out, blk, x)
+				}
+			}
+			// paths that left the loop with break arrive at the loop's exit block
+			var done *ssa.BasicBlock
+			if _, ok := b.Instrs[len(b.Instrs)-1].(*ssa.If); ok {
+				done = b.Succs[1]
+			}
+			if brk := esc[done]; done != nil && brk != nil && !inStops(stops, done) {
+				var rest arrivals
+				if c != nil {
+					rest = e.execFrom(fr, c, b, append(append([]*ssa.BasicBlock(nil), stops...), done), nphi+1)
+				}
+				for blk, x := range rest {
+					if blk != done {
+						out = e.addArrival(out, blk, x)
+					}
+				}
+				var at arrivals
+				at = e.addArrival(at, done, brk)
+				if rest != nil {
+					at = e.addArrival(at, done, rest[done])
+				}
+				c = at[done]
+				c.Prev = nil
+				b = done
+				// continue from the exit block with phis already evaluated
+				start = e.firstNonPhi(done)
+				continue
+			}
 			if c == nil {
-				return nil
+				return out
 			}
 			nphi++ // the Next instruction itself has been handled (exhausted tuple set)
 		}
 		for _, in := range b.Instrs[nphi:] {
 			e.Steps++
+			if e.Verbose {
+				e.stepsBy[fr.Fn]++
+			}
 			if e.Verbose && e.Steps%20000 == 0 {
 				fmt.Printf("    [exec] steps %d forks %d merges %d terms %d heap %d depth %d in %s\n", e.Steps, e.Forks, e.Merges, len(termList), len(c.S.Heap), fr.Depth, fr.Fn.Name())
 			}
@@ -907,7 +982,7 @@ func (e *Engine) execFrom(fr *Frame, c *Ctx, b *ssa.BasicBlock, stop *ssa.BasicB
 			case *ssa.If:
 				cond := e.get(c, x.Cond).(BoolV).T
 				t, f := b.Succs[0], b.Succs[1]
-				if !cond.IsConst() && (!e.Lazy || fr.Forks[b] >= 6) {
+				if !cond.IsConst() && (!e.Lazy || fr.Forks[b] >= 6 || e.eagerDepth > 0) {
 					ft := e.feasible(And(c.S.PC, cond))
 					ff := e.feasible(And(c.S.PC, Not(cond)))
 					switch {
@@ -918,7 +993,7 @@ func (e *Engine) execFrom(fr *Frame, c *Ctx, b *ssa.BasicBlock, stop *ssa.BasicB
 						c.S.PC = And(c.S.PC, Not(cond))
 						cond = TFalse
 					case !ft && !ff:
-						return nil
+						return out
 					}
 				}
 				if cond.IsTrue() {
@@ -933,10 +1008,14 @@ func (e *Engine) execFrom(fr *Frame, c *Ctx, b *ssa.BasicBlock, stop *ssa.BasicB
 				if fr.Forks[b] > e.Unwind {
 					e.Obls = append(e.Obls, Obligation{Kind: "unwind", ID: fmt.Sprintf("%s block %d", fr.Fn, b.Index), Cond: c.S.PC})
 					fr.Forks[b]--
-					return nil
+					return out
 				}
 				e.Forks++
 				j := e.ipdom(fr.Fn)[b]
+				inner := stops
+				if j != nil && !inStops(stops, j) {
+					inner = append(append([]*ssa.BasicBlock(nil), stops...), j)
+				}
 				pc0 := c.S.PC
 				c1 := c.fork(cond)
 				c1.Prev = b
@@ -947,32 +1026,49 @@ func (e *Engine) execFrom(fr *Frame, c *Ctx, b *ssa.BasicBlock, stop *ssa.BasicB
 				if n := len(e.catchers); n > 0 {
 					ncat = len(e.catchers[n-1])
 				}
-				r1 := e.exec(fr, c1, t, j)
-				r2 := e.exec(fr, c2, f, j)
+				a1 := e.exec(fr, c1, t, inner)
+				a2 := e.exec(fr, c2, f, inner)
 				fr.Forks[b]--
-				if j == nil || (r1 == nil && r2 == nil) {
-					return nil
-				}
 				var m *Ctx
-				switch {
-				case r1 != nil && r2 != nil:
-					e.evalPhis(r1, j)
-					e.evalPhis(r2, j)
+				for blk := range a1 {
+					if _, ok := a2[blk]; !ok {
+						if blk == j && !inStops(stops, j) {
+							m = a1[blk]
+						} else {
+							out = e.addArrival(out, blk, a1[blk])
+						}
+					}
+				}
+				for blk, x2 := range a2 {
+					x1, both := a1[blk]
+					if !both {
+						if blk == j && !inStops(stops, j) {
+							m = x2
+						} else {
+							out = e.addArrival(out, blk, x2)
+						}
+						continue
+					}
 					var pc *Term
-					escaped := len(fr.Rets) != nret || len(e.Obls) != nobl
-					if n := len(e.catchers); n > 0 && len(e.catchers[n-1]) != ncat {
-						escaped = true
+					if blk == j && len(a1) == 1 && len(a2) == 1 {
+						escaped := len(fr.Rets) != nret || len(e.Obls) != nobl
+						if n := len(e.catchers); n > 0 && len(e.catchers[n-1]) != ncat {
+							escaped = true
+						}
+						if !escaped && x1.S.PC == And(pc0, cond) && x2.S.PC == And(pc0, Not(cond)) {
+							pc = pc0
+						}
 					}
-					if !escaped && r1.S.PC == And(pc0, cond) && r2.S.PC == And(pc0, Not(cond)) {
-						pc = pc0
+					mm := e.mergeCtx(cond, x1, x2, pc)
+					mm.Prev = nil
+					if blk == j && !inStops(stops, j) {
+						m = mm
+					} else {
+						out = e.addArrival(out, blk, mm)
 					}
-					m = e.mergeCtx(cond, r1, r2, pc)
-				case r1 != nil:
-					m = r1
-					e.evalPhis(m, j)
-				default:
-					m = r2
-					e.evalPhis(m, j)
+				}
+				if m == nil {
+					return out
 				}
 				m.Prev = nil // phis of j already evaluated
 				c = m
@@ -993,13 +1089,13 @@ func (e *Engine) execFrom(fr *Frame, c *Ctx, b *ssa.BasicBlock, stop *ssa.BasicB
 					v = t
 				}
 				fr.Rets = append(fr.Rets, Ret{c, v})
-				return nil
+				return out
 			case *ssa.Panic:
 				e.raise(c, TTrue, "explicit panic in "+fr.Fn.String())
-				return nil
+				return out
 			default:
 				if !e.step(fr, c, in) {
-					return nil
+					return out
 				}
 			}
 			if nextB != nil {
@@ -1009,8 +1105,29 @@ func (e *Engine) execFrom(fr *Frame, c *Ctx, b *ssa.BasicBlock, stop *ssa.BasicB
 		if nextB == nil {
 			unsup("block without terminator")
 		}
+		if c.Prev == nil && nextB != nil {
+			// arrived at the join of a fork: phis are evaluated; skip them
+			b = nextB
+			if inStops(stops, b) {
+				return e.addArrival(out, b, c)
+			}
+			start = e.firstNonPhi(b)
+			continue
+		}
 		b = nextB
 	}
+}
+
+func (e *Engine) firstNonPhi(b *ssa.BasicBlock) int {
+	n := 0
+	for _, in := range b.Instrs {
+		if _, ok := in.(*ssa.Phi); ok {
+			n++
+		} else {
+			break
+		}
+	}
+	return n
 }
 
 // evalPhis evaluates the phi nodes of b for a context arriving from c.Prev (no-op if c.Prev is nil).
@@ -1462,6 +1579,38 @@ func (e *Engine) binop(c *Ctx, x *ssa.BinOp) Value {
 			return IntV{Sub(at, bt)}
 		case token.MUL:
 			return IntV{Mul(at, bt)}
+		case token.AND:
+			return IntV{BinBV(OBvAnd, at, bt)}
+		case token.OR:
+			return IntV{BinBV(OBvOr, at, bt)}
+		case token.XOR:
+			return IntV{BinBV(OBvXor, at, bt)}
+		case token.AND_NOT:
+			return IntV{BinBV(OBvAnd, at, BinBV(OBvXor, bt, BV(bt.width, mask(bt.width))))}
+		case token.SHL, token.SHR:
+			sh := Resize(bt, at.width, false)
+			if bt.width > at.width && !bt.IsConst() {
+				unsup("shift by wider symbolic amount")
+			}
+			if x.Op == token.SHL {
+				return IntV{BinBV(OShl, at, sh)}
+			}
+			if signed {
+				return IntV{BinBV(OAshr, at, sh)}
+			}
+			return IntV{BinBV(OLshr, at, sh)}
+		case token.QUO, token.REM:
+			e.raise(c, Eq(bt, BV(bt.width, 0)), "integer divide by zero")
+			c.S.PC = And(c.S.PC, Not(Eq(bt, BV(bt.width, 0))))
+			switch {
+			case x.Op == token.QUO && signed:
+				return IntV{BinBV(OSdiv, at, bt)}
+			case x.Op == token.QUO:
+				return IntV{BinBV(OUdiv, at, bt)}
+			case signed:
+				return IntV{BinBV(OSrem, at, bt)}
+			}
+			return IntV{BinBV(OUrem, at, bt)}
 		case token.LSS:
 			if signed {
 				return BoolV{Slt(at, bt)}
@@ -1580,19 +1729,8 @@ func (e *Engine) builtin(fr *Frame, c *Ctx, name string, args []Value, x *ssa.Ca
 	return nil
 }
 
-func (e *Engine) appendSlice(c *Ctx, s SliceV, more Value, et types.Type) Value {
-	m := more.(SliceV)
-	if len(m.Alts) != 1 || !m.Alts[0].Len.IsConst() {
-		unsup("append of symbolic tail")
-	}
-	ma := m.Alts[0]
-	k := int(ma.Len.val)
-	var tail []Value
-	if k > 0 {
-		arr := c.S.Heap[ma.Obj].Val.(ArrayV)
-		tail = arr.E[ma.Off : ma.Off+k]
-	}
-	// gather old elements as merged view
+// sliceView: merged element view and length of a guarded slice value (elements beyond the length are unspecified).
+func (e *Engine) sliceView(c *Ctx, s SliceV, et types.Type) ([]Value, *Term) {
 	hi := 0
 	for _, a := range s.Alts {
 		if a.Obj == -1 {
@@ -1606,16 +1744,16 @@ func (e *Engine) appendSlice(c *Ctx, s SliceV, more Value, et types.Type) Value 
 			hi = h
 		}
 	}
-	var oldLen *Term = BV(64, 0)
-	old := make([]Value, hi)
-	for i := range old {
-		old[i] = zero(et)
+	var ln *Term = BV(64, 0)
+	el := make([]Value, hi)
+	for i := range el {
+		el[i] = zero(et)
 	}
 	for ai, a := range s.Alts {
 		if ai == 0 {
-			oldLen = a.Len
+			ln = a.Len
 		} else {
-			oldLen = Ite(a.G, a.Len, oldLen)
+			ln = Ite(a.G, a.Len, ln)
 		}
 		if a.Obj == -1 {
 			continue
@@ -1623,11 +1761,44 @@ func (e *Engine) appendSlice(c *Ctx, s SliceV, more Value, et types.Type) Value 
 		arr := c.S.Heap[a.Obj].Val.(ArrayV)
 		for i := 0; i < hi && a.Off+i < len(arr.E); i++ {
 			if ai == 0 || len(s.Alts) == 1 {
-				old[i] = arr.E[a.Off+i]
+				el[i] = arr.E[a.Off+i]
 			} else {
-				old[i] = mergeV(a.G, arr.E[a.Off+i], old[i])
+				el[i] = mergeV(a.G, arr.E[a.Off+i], el[i])
 			}
 		}
+	}
+	return el, ln
+}
+
+// appendSlice models append as copy-on-append (a fresh backing array every time; aliasing of a shared backing
+// array between two appends to the same slice is outside the model and does not occur in the code under test).
+func (e *Engine) appendSlice(c *Ctx, s SliceV, more Value, et types.Type) Value {
+	var tail []Value
+	var tailLen *Term
+	switch m := more.(type) {
+	case SliceV:
+		tail, tailLen = e.sliceView(c, m, et)
+	case StrV: // append([]byte, string...)
+		f := fl(m)
+		for _, b := range f.B {
+			tail = append(tail, IntV{b})
+		}
+		tailLen = f.Len
+	}
+	k := len(tail)
+	if tailLen.IsConst() && int(tailLen.val) < k {
+		k = int(tailLen.val)
+		tail = tail[:k]
+	}
+	old, oldLen := e.sliceView(c, s, et)
+	hi := len(old)
+	if oldLen.IsConst() && int(oldLen.val) < hi {
+		hi = int(oldLen.val)
+		old = old[:hi]
+	}
+	lo := 0
+	if oldLen.hasIv {
+		lo = int(oldLen.lo)
 	}
 	n := hi + k
 	el := make([]Value, n)
@@ -1636,9 +1807,9 @@ func (e *Engine) appendSlice(c *Ctx, s SliceV, more Value, et types.Type) Value 
 		if j < hi {
 			v = old[j]
 		}
-		// positions oldLen..oldLen+k-1 take tail
+		// positions oldLen..oldLen+k-1 take the tail
 		for t := 0; t < k; t++ {
-			if j-t < 0 || j-t > hi {
+			if j-t < lo || j-t > hi {
 				continue
 			}
 			v = mergeV(Eq(oldLen, BV(64, uint64(j-t))), tail[t], v)
@@ -1646,9 +1817,12 @@ func (e *Engine) appendSlice(c *Ctx, s SliceV, more Value, et types.Type) Value 
 		el[j] = v
 	}
 	id := e.newObj(c, &Obj{Val: ArrayV{el}})
-	return SliceV{[]SliceAlt{{TTrue, id, 0, Add(oldLen, BV(64, uint64(k))), n}}}
+	nl := Add(oldLen, tailLen)
+	if oldLen.hasIv && tailLen.hasIv {
+		nl = withIv(nl, oldLen.lo+tailLen.lo, oldLen.hi+tailLen.hi)
+	}
+	return SliceV{[]SliceAlt{{TTrue, id, 0, nl, n}}}
 }
-
 
 // invoke dispatches an interface method call over the guarded alternatives of the receiver.
 func (e *Engine) invoke(fr *Frame, c *Ctx, x *ssa.Call) (Value, *Ctx, bool) {
@@ -1709,17 +1883,23 @@ func (e *Engine) invoke(fr *Frame, c *Ctx, x *ssa.Call) (Value, *Ctx, bool) {
 
 
 // guardedRange runs all iterations of a map range loop whose header is b (Next at index k).
-// Returns the context in which the iterator is exhausted (Next tuple = (false, zero, zero)).
-func (e *Engine) guardedRange(fr *Frame, c *Ctx, b *ssa.BasicBlock, k int, nx *ssa.Next) *Ctx {
+// Returns the context in which the iterator is exhausted (Next tuple = (false, zero, zero)) — nil if no path gets
+// there — and the arrivals of paths that left the loop body towards another block (break, continue of an outer loop…).
+func (e *Engine) guardedRange(fr *Frame, c *Ctx, b *ssa.BasicBlock, k int, nx *ssa.Next, stops []*ssa.BasicBlock) (*Ctx, arrivals) {
 	mt := nx.Iter.(*ssa.Range).X.Type().Underlying().(*types.Map)
 	itv := e.get(c, nx.Iter).(IterV)
+	var esc arrivals
+	inner := append(append([]*ssa.BasicBlock(nil), stops...), b)
+	if _, ok := b.Instrs[len(b.Instrs)-1].(*ssa.If); ok && !inStops(inner, b.Succs[1]) {
+		inner = append(inner, b.Succs[1])
+	}
 	for {
 		it := c.S.Heap[itv.Obj]
 		i := it.Cur[0].Idx
 		n := len(it.Cands)
 		if i >= n {
 			c.Regs[nx] = TupleV{[]Value{BoolV{TFalse}, zero(mt.Key()), zero(mt.Elem())}}
-			return c
+			return c, esc
 		}
 		// effectiveness of candidate i: last snapshot write of its key, and still present
 		cand := it.Cands[i]
@@ -1737,25 +1917,29 @@ func (e *Engine) guardedRange(fr *Frame, c *Ctx, b *ssa.BasicBlock, k int, nx *s
 			val = v
 		}
 		c.S.Heap[itv.Obj] = &Obj{IsIter: true, Cands: it.Cands, CandObj: it.CandObj, MapObj: it.MapObj, Cur: []CurAlt{{TTrue, i + 1}}, Epoch: it.Epoch}
-		if g.IsFalse() {
+		if g.IsFalse() || And(c.S.PC, g).IsFalse() {
 			continue
 		}
 		e.Forks++
 		cA := c.fork(g)
 		cA.Regs[nx] = TupleV{[]Value{BoolV{TTrue}, cand.K, val}}
 		cA.Prev = nil
-		rA := e.execFrom(fr, cA, b, b, k+1)
+		arr := e.execFrom(fr, cA, b, inner, k+1)
+		rA := arr[b]
+		for blk, x := range arr {
+			if blk != b {
+				esc = e.addArrival(esc, blk, x)
+			}
+		}
 		if g.IsTrue() {
 			if rA == nil {
-				return nil
+				return nil, esc
 			}
 			c = rA
-			e.evalPhis(c, b)
 			continue
 		}
 		cB := c.fork(Not(g))
 		if rA != nil {
-			e.evalPhis(rA, b)
 			c = e.mergeCtx(g, rA, cB, nil)
 		} else {
 			c = cB
